@@ -2,7 +2,8 @@
 From Coq Require Import List Bool String NArith ZArith.
 Import ListNotations.
 From Mos Require Import Str Xml Outcome Seq Spec Elements Classify Messages Merge Proto.
-From Mos.proofs Require Import XmlFacts Examples NoDupFacts.
+From Mos Require Import Collection.
+From Mos.proofs Require Import XmlFacts Examples NoDupFacts CollFacts Timing.
 Local Open Scope string_scope.
 Local Open Scope list_scope.
 
@@ -32,3 +33,10 @@ Proof.
   split; [vm_compute; reflexivity|]. split; [apply nodup_dec_str; vm_compute; reflexivity|].
   exact I.
 Qed.
+
+(* ---- the timing guard: holds of the example running order and of the example messages *)
+Definition ex_readers : list reader :=
+  map (fun km => {| rd_mid := 0%N; rd_roid := None; rd_class := fst km; rd_doc := snd km |}) ex_history.
+Lemma ex_timing :
+  ro_timing no_oracles ex_ro = true /\ forallb (reader_timing no_oracles) ex_readers = true /\ ex_readers <> [].
+Proof. split; [vm_compute; reflexivity|]. split; [vm_compute; reflexivity | discriminate]. Qed.
